@@ -1,7 +1,7 @@
 SPECIFICATION Spec
 CONSTANTS
-  Atomic = TRUE
-  Readers = 0
+  Atomic = FALSE
+  Readers = 2
   CachedView = FALSE
-INVARIANT InvAtMostOnce
+INVARIANT InvPackSeesPool
 CHECK_DEADLOCK FALSE
